@@ -374,6 +374,21 @@ func (e *SpecEnv) importedPkg(name string) *types.Package {
 			return imp
 		}
 	}
+	// a local import alias (`carv1 "github.com/ipld/go-car"`)
+	if p := e.u.eng.pkgs[e.pkg.Path()]; p != nil {
+		for _, f := range p.Syntax {
+			for _, is := range f.Imports {
+				if is.Name != nil && is.Name.Name == name {
+					path := strings.Trim(is.Path.Value, "\"")
+					for _, imp := range e.pkg.Imports() {
+						if imp.Path() == path {
+							return imp
+						}
+					}
+				}
+			}
+		}
+	}
 	return nil
 }
 
@@ -658,6 +673,19 @@ func (e *SpecEnv) call(x *ast.CallExpr) Term {
 			u.declareReaderGhost()
 			u.c.declareFun("rd.faithful", "(Int) Bool")
 			return Term{S: "(rd.faithful " + a.S + ")", T: types.Typ[types.Bool]}
+		case "readfull":
+			// readfull(r, off, n): a ReadAt of n bytes at off on r delivers all n bytes (whatever error accompanies them);
+			// a fixed property of the reader and the range (assumed: the same range is always or never delivered in full)
+			if len(x.Args) != 3 {
+				return e.fail("readfull(r, off, n) takes three arguments")
+			}
+			a := e.eval(x.Args[0])
+			o := e.eval(x.Args[1])
+			n := e.eval(x.Args[2])
+			u.declareReaderGhost()
+			is := u.c.idxSort()
+			u.c.declareFun("rd.full", "(Int "+is+" "+is+") Bool")
+			return Term{S: fmt.Sprintf("(rd.full %s %s %s)", a.S, u.toIdx(o), u.toIdx(n)), T: types.Typ[types.Bool]}
 		case "fsize":
 			// ghost size of the file behind an io.ReaderAt
 			a := e.eval(x.Args[0])
